@@ -111,6 +111,11 @@ def events():
         # "once" must be once per document, not once per process)
         ("xml_with_warnings", {"kind": "xml", "buf": WARN_XML}),
         ("xta_with_warnings", {"kind": "xta", "buf": WARN_XTA}),
+        # what libxml2 itself remembers between calls (its last-error slot): documents it complains about, then a well-formed one
+        # that ends before the reader is done
+        ("xml_no_system_element", {"kind": "xml", "buf": re.sub(r"<system>.*?</system>", "", small, flags=re.S)}),
+        ("xml_unescaped_less_than", {"kind": "xml", "buf": small.replace("i == 0 &amp;&amp; x &lt; 5", "i == 0 && x < 5")}),
+        ("xml_undeclared_namespace_prefix", {"kind": "xml", "buf": small.replace("<location ", '<location ed:y="3" ', 1)}),
         ("xta_unknown_source", {"kind": "xta", "buf": "process P() { state A, B; init A; trans A -> B { }, -> A { guard 1 ( ; }; }\nsystem P;\n"}),
     ]
     return ev
